@@ -91,6 +91,8 @@ def load_contracts():
             prefix = header.get("prefix", "").strip()
             for it in items:
                 it.setdefault("file", header.get("file", "").strip())
+                it.setdefault("module", header.get("module", "").strip())
+                it.setdefault("paths", header.get("paths", ""))
                 it["file"] = it["file"].strip()
                 iid = (prefix + "." if prefix else "") + it["id"]
                 it["id"] = iid
@@ -178,6 +180,8 @@ def build_request(unit, inst, contracts):
             "derive_eq": c.get("derive_eq", "").strip() == "true",
             "trait_extra": subst_vars(c.get("trait_extra", ""), inst),
             "methods": {},
+            "paths": dict(kv.split("=", 1) for kv in c.get("paths", "").split() if "=" in kv),
+            "_module": c.get("module", ""),
         }
         if c.get("ret", "").strip():
             req["ret_name"] = c["ret"].strip()
@@ -321,20 +325,30 @@ def assemble(unit, inst, contracts, outs):
     bad = [o for o in outs["items"] if not o["ok"]]
     if bad:
         raise Machinery("; ".join("%s: %s [%s]" % (o["id"], o["error"], o["error_kind"]) for o in bad))
+    by_module = {}
     for o in outs["items"]:
-        mode = next(r for r in unit["_reqs"] if r["id"] == o["id"])["mode"]
-        a.add("// ===== %s  [%s]  %s:%d-%d" % (o["id"], mode, o["file"], o["start_line"], o["end_line"]), "item", o["id"])
-        if o["header"]:
-            a.add(o["header"] + " {", "item", o["id"])
-            if o.get("assoc"):
-                a.add(o["assoc"].rstrip("\n"), "item", o["id"])
-            extra = subst_vars(contracts[o["id"].split("{")[0]].get("impl_extra", ""), next(r for r in unit["_reqs"] if r["id"] == o["id"])["_inst"])
-            if extra.strip():
-                a.add(extra, "item", o["id"])
-            a.add(o["text"], "item", o["id"])
-            a.add("}", "item", o["id"])
-        else:
-            a.add(o["text"], "item", o["id"])
+        req = next(r for r in unit["_reqs"] if r["id"] == o["id"])
+        by_module.setdefault(req["_module"], []).append((o, req))
+    for module in sorted(by_module):
+        if module:
+            a.add("pub mod %s {" % module, "header")
+            a.add("use super::*;", "header")
+        for o, req in by_module[module]:
+            mode = req["mode"]
+            a.add("// ===== %s  [%s]  %s:%d-%d" % (o["id"], mode, o["file"], o["start_line"], o["end_line"]), "item", o["id"])
+            if o["header"]:
+                a.add(o["header"] + " {", "item", o["id"])
+                if o.get("assoc"):
+                    a.add(o["assoc"].rstrip("\n"), "item", o["id"])
+                extra = subst_vars(contracts[o["id"].split("{")[0]].get("impl_extra", ""), req["_inst"])
+                if extra.strip():
+                    a.add(extra, "item", o["id"])
+                a.add(o["text"], "item", o["id"])
+                a.add("}", "item", o["id"])
+            else:
+                a.add(o["text"], "item", o["id"])
+        if module:
+            a.add("} // mod %s" % module, "header")
     for n, t in read_fragments("glue", unit.get("glue_files", ""), inst):
         a.add("// ===== glue/%s (spec vocabulary and lemmas over the extracted items)" % n, "glue")
         a.add(t, "glue", "glue:" + n)
